@@ -127,6 +127,7 @@ class C02(common.ModelProperty):
         cfg["multi"] = False
         cfg["restarts"] = rng.random() < 0.3
         cfg["weights"] = gen.swarm_weights(rng, KINDS, always=("uni_add",))
+        cfg["p_w_error"] = rng.choice([0.0, 0.0, 0.15])  # calls made with warnings turned into errors
         if rng.random() < float(os.environ.get("EGSIM_C02_CROWD_P", "0.0005" if common.deep_tier() else "0.0015")):
             # "over every pool": one universe with thousands of members (code
             # paths that depend on size), then a short ordinary history
